@@ -123,6 +123,9 @@ void h_mem_join(void)
 	V_IN(unsigned char, OFF_2);
 	octet AR[ARENA], E[C1 + C2 + 1];
 	size_t i;
+	V_TWEAK(OFF_D, OFF_D %= ARENA - C1 - C2 + 1);
+	V_TWEAK(OFF_1, OFF_1 %= ARENA - C1 + 1);
+	V_TWEAK(OFF_2, OFF_2 %= ARENA - C2 + 1);
 	V_ASSUME(OFF_D + C1 + C2 <= ARENA && OFF_1 + C1 <= ARENA && OFF_2 + C2 <= ARENA);
 	o_copy(AR, ar0, ARENA);
 	for (i = 0; i < C1; ++i) E[i] = ar0[OFF_1 + i];
@@ -147,6 +150,8 @@ void h_mem_move(void)
 	octet AR[ARENA];
 	size_t i;
 	int ok = 1;
+	V_TWEAK(OFF_D, OFF_D %= ARENA - C1 + 1);
+	V_TWEAK(OFF_1, OFF_1 %= ARENA - C1 + 1);
 	V_ASSUME(OFF_D + C1 <= ARENA && OFF_1 + C1 <= ARENA);
 	o_copy(AR, ar0, ARENA);
 	memMove(AR + OFF_D, AR + OFF_1, C1);
